@@ -190,11 +190,74 @@ def run_entry(entry, n, seed, acc, tier):
     core.hyp_collect(case(), chk, n, seed, acc, case_timeout=120)
 
 
+def run_mixed(n, seed, acc):
+    """one file whose functional groups belong to different maps: the reader changes maps on the way"""
+    from hypothesis import strategies as st
+
+    @st.composite
+    def case(draw):
+        ch = docgen.HypChooser(draw)
+        try:
+            doc = c02.build_mixed(ch)
+        except docgen.GenFail:
+            return {'skip': 'genfail'}
+        lids = []
+        for e in doc.parts:
+            for x in loop_ids(e['file']):
+                if x not in lids:
+                    lids.append(x)
+        present = []
+        for s in doc.segs:
+            for l, k in s.chain:
+                if l.id in lids and l.id not in present:
+                    present.append(l.id)
+        # loop ids that occur in groups of two different maps first, then a few of the others
+        def nparts(lid):
+            seen = set()
+            gi = -1
+            for s in doc.segs:
+                if s.id == 'GS':
+                    gi += 1
+                if any(l.id == lid for l, k in s.chain) and 0 <= gi < len(doc.parts):
+                    seen.add(doc.parts[gi]['file'])
+            return len(seen)
+        shared = [x for x in present if x not in ('ISA_LOOP', 'GS_LOOP', 'ST_LOOP') and nparts(x) > 1]
+        rest = [x for x in present if x not in shared]
+        chosen = [None] + shared[:4] + [rest[ch.integer(0, len(rest) - 1)] for _ in range(min(2, len(rest)))]
+        return {'text': doc.text(), 'loop_ids': chosen,
+                'paths': [[l.id for l, k in s.chain] for s in doc.segs], 'insts': [[k for l, k in s.chain] for s in doc.segs],
+                'meta': {'file': 'mixed', 'parts': [e['file'] for e in doc.parts], 'shared_loop_ids': len(shared)}}
+
+    def chk(c):
+        if 'skip' in c:
+            return core.Outcome(classes=['skipped:' + c['skip']])
+        first = None
+        for lid in c['loop_ids']:
+            sub = {'text': c['text'], 'loop_id': lid, 'paths': c['paths'], 'insts': c['insts'], 'meta': c['meta']}
+            o = check_case(sub)
+            o.classes.append('mixed-maps')
+            if c['meta'].get('shared_loop_ids') and lid is not None:
+                o.classes.append('mixed-maps:loop-id-in-two-maps')
+            if first is None:
+                first = (sub, o)
+            else:
+                acc.add(sub, o)
+        c.clear()
+        c.update(first[0])
+        return first[1]
+
+    core.hyp_collect(case(), chk, n, seed, acc, case_timeout=120)
+
+
 def shards(tier, seed):
-    return [{'entry': e, 'i': i, 'n': 100 if tier == 'thorough' else 5} for i, e in enumerate(genfaulty.entries(exclude_ack=False))]
+    return [{'entry': e, 'i': i, 'n': 100 if tier == 'thorough' else 5} for i, e in enumerate(genfaulty.entries(exclude_ack=False))] + \
+        [{'mixed': True, 'i': 300 + i, 'n': 60 if tier == 'thorough' else 8} for i in range(8)]
 
 
 def run_shard(spec, seed, tier):
     acc = core.Acc()
+    if spec.get('mixed'):
+        run_mixed(spec['n'], seed * 1000 + spec['i'], acc)
+        return acc
     run_entry(spec['entry'], spec['n'], seed * 1000 + spec['i'], acc, tier)
     return acc
